@@ -305,13 +305,30 @@ func runC15(c *Ctx) {
 					}
 					isNil := c.RetX(ret, len(ret.Results)-1).Op == "nil"
 					passes := add.Block() == b || add.Block().Dominates(b)
+					if !isNil && passes {
+						// a failure after registering is fine when the registration is taken back on the way out
+						undone := false
+						instrs(addHost, func(o ssa.Instruction) {
+							if _, isDefer := o.(*ssa.Defer); !isDefer && isCallTo(c, o, Call("sync.WaitGroup).Done", Field(expWG, Any()))) &&
+								Precedes(add, o) && (o.Block() == b || o.Block().Dominates(b)) {
+								undone = true
+							}
+						})
+						if undone {
+							continue
+						}
+					}
 					if isNil != passes {
 						okNil = false
 					}
 				}
 				c.Check(okNil, "C15.Q2-registration", key+" › admission helper reports what it did", admit.Pos(), "the admission helper returns nil exactly on the paths that registered", "the admission helper can return nil without having registered (or an error after registering): the entry point's Done and Close's Wait no longer match")
 				for _, h := range hcalls {
-					_, g := c.Guarded(h, EqNil(Is(c.E(admit))), true)
+					admitErr := Is(c.E(admit))
+					if n := addHost.Signature.Results().Len(); n > 1 {
+						admitErr = Extract(itoa(n-1), Is(c.E(admit)))
+					}
+					_, g := c.Guarded(h, EqNil(admitErr), true)
 					c.Check(g, "C15.Q2-registration", key+" › sync only when admitted", h.Pos(), "the sync is reached only on the admission helper's nil edge", "the sync can start although admission failed")
 				}
 			}
